@@ -125,6 +125,7 @@ Definition at6 (p : pc) : bool := match p with SS6 _ => true | _ => false end.
 Definition at7 (p : pc) : bool := match p with SS7 _ => true | _ => false end.
 Definition at8 (p : pc) : bool := match p with SS8 _ => true | _ => false end.
 Definition at9 (p : pc) : bool := match p with SS9 _ => true | _ => false end.
+Definition at_sd4 (p : pc) : bool := match p with SD4 _ _ => true | _ => false end.
 (* Listener.listen before / up to its last step *)
 Definition lt_pre (p : pc) : bool := match p with LT0 | LT1 | LT2 | LT3 => true | _ => false end.
 Definition lt_all (p : pc) : bool := match p with LT0 | LT1 | LT2 | LT3 | LT4 => true | _ => false end.
@@ -140,6 +141,17 @@ Definition sess_ok (s : sess) : bool :=
   negb (is_nil (done s)) && implb (is_closed (done s)) (closed s).
 
 Arguments shutdown_section : simpl never.
+
+Lemma sess_ok_set_lock b s : sess_ok (set_lock b s) = sess_ok s.
+Proof. destruct s; reflexivity. Qed.
+Lemma sess_ok_set_mux c s : sess_ok (set_mux c s) = sess_ok s.
+Proof. destruct s; reflexivity. Qed.
+Lemma sess_ok_set_done s : sess_ok s = true -> closed s = true -> sess_ok (set_done Closed s) = true.
+Proof.
+  destruct s as [cg sh cd sc wc rc cr sw chn sd wk rv dn mx pk wt lk]; unfold sess_ok, is_nil; simpl.
+  intros H E; subst. destruct dn; simpl in *; auto; rewrite ?andb_true_r in *; auto.
+  rewrite andb_false_r in H. discriminate.
+Qed.
 
 Lemma shutdown_section_ok s :
   sess_ok s = true ->
@@ -159,9 +171,10 @@ Qed.
 (* the invariant of the repaired step list                                                      *)
 Record Inv (pool : list pc) (w : world) : Prop := {
   i_cl : cl_started w = true;  i_ce : ce_started w = true;  i_lt : lt_started w = true;
-  i_run : (Nat.eqb (run_ w) 1 || Nat.eqb (run_ w) 2) = true;
+  i_run : 1 <= run_ w <= 2;
   i_okc : sess_ok (cli w) = true;  i_okv : sess_ok (srv w) = true;
   i_muxc : is_nil (mux (cli w)) = false;
+  i_dnc : is_nil (done (cli w)) = false;  i_dnv : is_nil (done (srv w)) = false;
   i_l1 : cnt in_listen pool + b2n (is_closed (mux (cli w))) = 1;
   i_l2 : cnt pre_sd0_cli pool + b2n (closed (cli w)) = 1;
   i_dc : cnt (pend Cli) pool + b2n (is_closed (done (cli w))) = b2n (closed (cli w));
@@ -169,16 +182,24 @@ Record Inv (pool : list pc) (w : world) : Prop := {
   i_xc : cnt skip_cli pool = 0;
   i_kc : cnt (cs Cli) pool = b2n (lock (cli w));
   i_kv : cnt (cs Srv) pool = b2n (lock (srv w));
-  i_v1 : cnt ss59 pool + b2n (is_closed (sv_done w)) = b2n (Nat.eqb (run_ w) 2);
-  i_v2 : (implb (is_closed (sv_dell w)) (is_closed (sv_new w)) && implb (is_closed (sv_dels w)) (is_closed (sv_dell w)) &&
-          implb (is_closed (sv_events w)) (is_closed (sv_dels w)) && implb (is_closed (sv_done w)) (is_closed (sv_events w)) &&
-          negb (is_nil (sv_new w)) && negb (is_nil (sv_dell w)) && negb (is_nil (sv_dels w)) &&
-          negb (is_nil (sv_events w)) && negb (is_nil (sv_done w))) = true;
+  i_v1 : cnt ss59 pool + b2n (is_closed (sv_done w)) + 1 = run_ w;
+  i_v0 : b2n (is_closed (sv_new w)) + 1 <= run_ w;
+  i_n1 : is_nil (sv_new w) = false;  i_n2 : is_nil (sv_dell w) = false;  i_n3 : is_nil (sv_dels w) = false;
+  i_n4 : is_nil (sv_events w) = false;  i_n5 : is_nil (sv_done w) = false;
+  i_v2a : b2n (is_closed (sv_dell w)) <= b2n (is_closed (sv_new w));
+  i_v2b : b2n (is_closed (sv_dels w)) <= b2n (is_closed (sv_dell w));
+  i_v2c : b2n (is_closed (sv_events w)) <= b2n (is_closed (sv_dels w));
+  i_v2d : b2n (is_closed (sv_done w)) <= b2n (is_closed (sv_events w));
   i_v5 : cnt at5 pool + b2n (is_closed (sv_new w)) <= 1;
   i_v6 : cnt at6 pool + b2n (is_closed (sv_dell w)) <= 1;
   i_v7 : cnt at7 pool + b2n (is_closed (sv_dels w)) <= 1;
   i_v8 : cnt at8 pool + b2n (is_closed (sv_events w)) <= 1;
   i_v9 : cnt at9 pool + b2n (is_closed (sv_done w)) <= 1;
+  i_w6 : cnt at6 pool <= b2n (is_closed (sv_new w));
+  i_w7 : cnt at7 pool <= b2n (is_closed (sv_dell w));
+  i_w8 : cnt at8 pool <= b2n (is_closed (sv_dels w));
+  i_w9 : cnt at9 pool <= b2n (is_closed (sv_events w));
+  i_sd4 : cnt at_sd4 pool = 0;
   i_a1 : cnt lt_pre pool + dellq w = active w;
   i_a2 : active w <> 0 -> cnt ss49 pool = 0;
   i_a2' : b2n (is_closed (sv_new w)) = 1 -> active w = 0;
@@ -192,23 +213,6 @@ Ltac break_match_hyp H :=
   match type of H with
   | context [match ?X with _ => _ end] => destruct X eqn:?
   end.
-
-Ltac cnt_fact f i p p' pool Hn :=
-  pose proof (cnt_set_nth f pool i p p' Hn); pose proof (cnt_ge f pool i p Hn).
-Ltac cnt_facts i p p' pool Hn :=
-  cnt_fact in_listen i p p' pool Hn; cnt_fact pre_sd0_cli i p p' pool Hn;
-  cnt_fact (pend Cli) i p p' pool Hn; cnt_fact (pend Srv) i p p' pool Hn;
-  cnt_fact skip_cli i p p' pool Hn; cnt_fact (cs Cli) i p p' pool Hn; cnt_fact (cs Srv) i p p' pool Hn;
-  cnt_fact ss59 i p p' pool Hn; cnt_fact ss49 i p p' pool Hn;
-  cnt_fact at5 i p p' pool Hn; cnt_fact at6 i p p' pool Hn; cnt_fact at7 i p p' pool Hn;
-  cnt_fact at8 i p p' pool Hn; cnt_fact at9 i p p' pool Hn;
-  cnt_fact lt_pre i p p' pool Hn; cnt_fact lt_all i p p' pool Hn;
-  pose proof (cnt_le at5 ss59 pool ltac:(intros [] ; simpl; congruence));
-  pose proof (cnt_le at6 ss59 pool ltac:(intros [] ; simpl; congruence));
-  pose proof (cnt_le at7 ss59 pool ltac:(intros [] ; simpl; congruence));
-  pose proof (cnt_le at8 ss59 pool ltac:(intros [] ; simpl; congruence));
-  pose proof (cnt_le at9 ss59 pool ltac:(intros [] ; simpl; congruence));
-  pose proof (cnt_le ss59 ss49 pool ltac:(intros [] ; simpl; congruence)).
 
 Lemma b2n_le1 b : b2n b <= 1. Proof. destruct b; simpl; lia. Qed.
 
